@@ -176,3 +176,5 @@ func loopVarInt(name string) int                 { panic("loopVar is only availa
 func loopVarU64(name string) uint64              { panic("loopVar is only available under gosym") }
 func loopVarI64(name string) int64               { panic("loopVar is only available under gosym") }
 func cutActive() bool                            { return false }
+func streamSeed(r *randomBitStream) uint64 { panic("streamSeed is only available under gosym") }
+func loopFrameValue(typ string) any        { panic("loopFrameValue is only available under gosym") }
